@@ -69,8 +69,12 @@ pub fn profile_for(prop: &str, tier: &str) -> Profile {
             p.w_ops = [30, 14, 3, 3, 16, 2, 4, 8, 2, 1, 0];
         }
         "C17" => {
-            p.w_macro = [0, 1, 0, 1, 0, 0, 2, 0, 0, 14, 0];
+            // slot 3 = band-edge opens / closes that trip the band (with limits at the quote); a 100% partial ratio
+            // keeps such closes whole-position closes, which the limit rule pins
+            p.w_macro = [0, 1, 0, 6, 0, 0, 2, 0, 0, 14, 0];
             p.macro_pct = 30;
+            p.fluct_pct = 50;
+            p.partial_choices = vec![0, 0, 250_000, 950_000, 1_000_000, 1_000_000];
         }
         "C18" => {
             p.w_ops = [36, 10, 2, 2, 6, 3, 3, 30, 2, 1, 0];
